@@ -5,6 +5,13 @@ C15 real-code runner: a real AsyncStreamServer over an in-memory listener, with
   layer "tcp"  : real AsyncTCPNetworkServer (its listeners come from a backend subclass returning the in-memory listener)
 all on the virtual-time loop (vlib/c15_env.py).
 
+Connection kinds (`case["conn"]`, see `make_connection`):
+  "single"  (default) one in-memory AsyncStreamTransport (SessionTransport)
+  "stapled" the library's own AsyncStapledStreamTransport(write half, read half) over two in-memory half transports
+            (AsyncStreamWriteTransport / AsyncStreamReadTransport).  Like every I/O backed transport the halves' aclose()
+            may have checkpoints before it returns (`wclose` / `rclose` loop turns: flush, wait for the OS) and release
+            their resource however aclose() ends.  "The connection is closed" then means: BOTH halves closed.
+
 Times: one *unit* = 1 virtual second = UNIT subticks (2^20).  In a case, `delays`, `end_delay` and `sleep` are in units,
 `timeout` is in SUBTICKS (so that deadlines can carry distinct dyadic fractions and never tie with an arrival);
 log lines show `@<units>` or `@<units>+<subticks>`.  All values are dyadic, so float arithmetic is exact.
@@ -18,6 +25,8 @@ from typing import Any
 
 from vlib import core, sers, streamdrive as sd
 from vlib import c15_env as env
+
+from easynetwork.lowlevel.api_async.transports import abc as tr_abc
 
 from easynetwork.exceptions import StreamProtocolParseError
 from easynetwork.lowlevel.api_async.servers.stream import AsyncStreamServer
@@ -105,6 +114,109 @@ class SessionTransport(env.MemTransport):
             self.recv_log.append((asyncio.get_running_loop().time(), 0))
             return
         return await super()._at_end()
+
+
+class ReadHalf(tr_abc.AsyncStreamReadTransport):
+    """read-only view of a SessionTransport (the scripted incoming stream, `after_close` behaviour, `nread`)"""
+
+    def __init__(self, core_tr: SessionTransport) -> None:
+        super().__init__()
+        self.core = core_tr
+
+    def backend(self):
+        return self.core.backend()
+
+    def is_closing(self) -> bool:
+        return self.core.is_closing()
+
+    async def aclose(self) -> None:
+        await self.core.aclose()
+
+    async def recv(self, bufsize: int) -> bytes:
+        return await self.core.recv(bufsize)
+
+    async def recv_into(self, buffer) -> int:
+        return await self.core.recv_into(buffer)
+
+    @property
+    def extra_attributes(self):
+        return self.core.extra_attributes
+
+
+class WriteHalf(tr_abc.AsyncStreamWriteTransport):
+    """write-only view of a MemTransport (records what is written; aclose() with `close_steps` checkpoints)"""
+
+    def __init__(self, core_tr: env.MemTransport) -> None:
+        super().__init__()
+        self.core = core_tr
+
+    def backend(self):
+        return self.core.backend()
+
+    def is_closing(self) -> bool:
+        return self.core.is_closing()
+
+    async def aclose(self) -> None:
+        await self.core.aclose()
+
+    async def send_all(self, data) -> None:
+        await self.core.send_all(data)
+
+    @property
+    def extra_attributes(self):
+        return self.core.extra_attributes
+
+
+CONN_KINDS = ("single", "stapled")
+
+
+class Connection:
+    """what the listener hands to the server for one session, and how the harness looks at it afterwards
+         transport   the AsyncStreamTransport given to the server
+         reader      the SessionTransport the server's reads end up on (nread, recv_log, recv_while_closed)
+         writer      the MemTransport the server's writes end up on (written; aclose_calls = closes of the connection)
+       `adopt(obj, which)` (optional) is applied to every in-memory transport created ("r" / "w" / "rw"): layer "tcp" uses it
+       to bind them to its backend and give them the INET typed attributes."""
+
+    def __init__(self, case: dict, be=None, adopt=None) -> None:
+        incoming, t_end, chunks = build_incoming(case)
+        self.incoming, self.t_end, self.chunks = incoming, t_end, chunks
+        self.kind = case.get("conn", "single")
+        assert self.kind in CONN_KINDS, self.kind
+        kw = {"be": be} if be is not None else {}
+        ac = case.get("after_close", "ebadf")
+        if self.kind == "single":
+            self.reader = self.writer = SessionTransport(incoming, case.get("end", "eof"), t_end, after_close=ac, **kw)
+            if adopt is not None:
+                adopt(self.reader, "rw")
+            self.transport = self.reader
+        else:
+            from easynetwork.lowlevel.api_async.transports.composite import AsyncStapledStreamTransport
+
+            self.reader = SessionTransport(incoming, case.get("end", "eof"), t_end, after_close=ac,
+                                           close_steps=int(case.get("rclose", 0)), **kw)
+            self.writer = env.MemTransport([], close_steps=int(case.get("wclose", 1)), **kw)
+            if adopt is not None:
+                adopt(self.reader, "r")
+                adopt(self.writer, "w")
+            self.transport = AsyncStapledStreamTransport(WriteHalf(self.writer), ReadHalf(self.reader))
+
+    def closed(self) -> bool:
+        """the connection is closed: every half has released its resource, and the transport says it is closing"""
+        return bool(self.reader.closed and self.writer.closed and self.transport.is_closing())
+
+    def final_lines(self) -> list[str]:
+        out = [f"transport closed={int(self.closed())} aclose_calls={min(self.writer.aclose_calls, 9)}"]
+        if self.kind != "single":
+            # (not compared with the model: props/c15.real_for_diff drops it)
+            out.append(f"halves write={int(self.writer.closed)} read={int(self.reader.closed)} "
+                       f"is_closing={int(self.transport.is_closing())}")
+        return out
+
+    def fill_aux(self, aux: dict) -> None:
+        aux["written"] = b"".join(self.writer.written)
+        aux["recv_log"] = self.reader.recv_log
+        aux["recv_while_closed"] = self.reader.recv_while_closed
 
 
 def exc_kind(e: BaseException) -> str:
@@ -259,13 +371,12 @@ def run_session(case: dict) -> tuple[list[str], dict]:
     logging.getLogger("easynetwork").setLevel(logging.CRITICAL)
     log = Log()
     script = Script(case, log)
-    incoming, t_end, chunks = build_incoming(case)
-    tr = SessionTransport(incoming, case.get("end", "eof"), t_end, after_close=case.get("after_close", "ebadf"))
-    log.probe = lambda: tr.nread
+    conn = Connection(case)
+    log.probe = lambda: conn.reader.nread
     proto = sd.make_protocol(case["spec"], case["path"], bool(case.get("conv")))
-    listener = env.MemListener([tr])
+    listener = env.MemListener([conn.transport])
     layer = case.get("layer", "low")
-    aux: dict[str, Any] = {"chunks": chunks, "incoming": incoming, "t_end": t_end}
+    aux: dict[str, Any] = {"chunks": conn.chunks, "incoming": conn.incoming, "t_end": conn.t_end}
 
     async def main() -> None:
         be = env.backend()
@@ -301,12 +412,10 @@ def run_session(case: dict) -> tuple[list[str], dict]:
         lines.append(f"main-exc {type(out[1]).__name__}: {out[1]}")
     for kind, e in listener.task_results:
         lines.append("task " + (kind if kind != "exc" else "exc:" + exc_kind(e)))
-    lines.append(f"transport closed={int(tr.closed)} aclose_calls={min(tr.aclose_calls, 9)}")
+    lines.extend(conn.final_lines())
     lines.append(f"nresp {script.nresp}")
-    aux["written"] = b"".join(tr.written)
+    conn.fill_aux(aux)
     aux["gen_ends"] = script.gen_ends
     aux["gens_started"] = script.gens_started
-    aux["recv_log"] = tr.recv_log
-    aux["recv_while_closed"] = tr.recv_while_closed
     aux["read_marks"] = list(log.marks)
     return lines, aux
